@@ -25,7 +25,7 @@ from simdag.seams.ordfs import OrdFS, TapeChooser
 
 META = {"C05": {
     "level": "exploration",
-    "quick_runs": 4000,
+    "quick_runs": 30000,
     "block": 50,
     "thorough_budget_s": 600,
     "rule": ("one run = one seeded phase (hand-written acyclic graph over 7 statement kinds with guards "
